@@ -747,39 +747,56 @@ def instanceNormPieces (x : Tensor Int) (featAxes : List Int) (useFast : Bool)
 def repeatAxis {α : Type} (t : Tensor α) (ax reps : Nat) (d : α) : Tensor α :=
   Tensor.ofFn (t.shape.set ax (nth t.shape ax * reps)) (fun idx => t.getD (idx.set ax (nth idx ax 0 / reps)) d)
 
-/-- `GroupNorm`: `x` is reshaped to `x.shape[:-1] ++ [G, S]`, statistics are taken over the leading reduction axes
-and the last axis, giving a tensor of shape `keep ++ [G]`; it is repeated `S` times along `repeatAx`
-(Linen: the last axis; NNX as found: axis 1 — see `groupNormPieces` callers), viewed with the statistics shape
-(`x.shape` with the leading reduction axes set to 1) and broadcast against `x`. -/
-def groupNormPieces (x : Tensor Int) (numGroups : Nat) (redAxes : Option (List Int)) (useFast : Bool)
-    (mask scale bias : Option (Tensor Int)) (repeatAx : Option Nat) : Except String (List NormPiece) := do
+/-- statistics of one cell of the grouped tensor: `sidx = kept coordinates ++ [group]`; reduces over the leading
+reduction axes `redLead` and the `gs` channels of the group (masked-in entries only) -/
+def groupStatsAt (x : Tensor Int) (gs : Nat) (redLead keepAx : List Nat) (useFast : Bool) (mask : Option (Tensor Int))
+    (sidx : List Nat) : Option Stats :=
   let rank := x.rank
-  if rank = 0 then throw "Rank"
-  let red := match redAxes with
-    | some r => canonAxes rank r
-    | none => canonAxes rank (((List.range (rank - 1)).filter (fun i => decide (1 ≤ i))).map (fun (i : Nat) => (i : Int)) ++ [-1])
-  if red.getLast? ≠ some (rank - 1) then throw "ReductionAxes"
+  let g := nth sidx keepAx.length 0
+  let base := (List.range rank).map (fun a => match keepAx.idxOf? a with | some j => nth sidx j 0 | none => 0)
+  let lead := reductionGroup x.shape redLead base
+  let grp := (lead.flatMap (fun i => (List.range gs).map (fun j => i.set (rank - 1) (g * gs + j)))).filter (maskAt mask)
+  if grp.isEmpty then none else some (computeStats (grp.map (fun i => (x.get i : Rat))) true useFast)
+
+/-- `GroupNorm` once the configuration is accepted (`red` = canonical reduction axes, last one the channel axis):
+`x` is viewed as `x.shape[:-1] ++ [G, S]`, statistics are taken over the leading reduction axes and the last axis,
+giving a tensor of shape `keep ++ [G]`; it is repeated `S` times along `repeatAx` (Linen, and NNX as repaired: the last
+axis; NNX as found: axis 1), viewed with the statistics shape (`x.shape` with the leading reduction axes set to 1) and
+broadcast against `x`. -/
+def groupNormCore (x : Tensor Int) (numGroups : Nat) (red : List Nat) (useFast : Bool)
+    (mask scale bias : Option (Tensor Int)) (rax : Nat) : List NormPiece :=
+  let rank := x.rank
   let c := nth x.shape (rank - 1)
-  if numGroups = 0 ∨ c % numGroups ≠ 0 then throw "Groups"
   let gs := c / numGroups
   let redLead := red.dropLast
   let keepAx := (List.range (rank - 1)).filter (fun a => !(redLead.contains a))
   let keepShape := keepAx.map (nth x.shape ·)
-  -- statistics tensor, shape keep ++ [G]
-  let statsT : Tensor (Option Stats) := Tensor.ofFn (keepShape ++ [numGroups]) (fun sidx =>
-    let g := nth sidx keepAx.length 0
-    let base := (List.range rank).map (fun a => match keepAx.idxOf? a with | some j => nth sidx j 0 | none => 0)
-    let lead := reductionGroup x.shape redLead base
-    let grp := (lead.flatMap (fun i => (List.range gs).map (fun j => i.set (rank - 1) (g * gs + j)))).filter (maskAt mask)
-    if grp.isEmpty then none else some (computeStats (grp.map (fun i => (x.get i : Rat))) true useFast))
-  let rax := repeatAx.getD keepAx.length
-  if statsT.rank ≤ rax then throw "RepeatAxis"
+  let statsT : Tensor (Option Stats) :=
+    Tensor.ofFn (keepShape ++ [numGroups]) (groupStatsAt x gs redLead keepAx useFast mask)
   let rep := repeatAxis statsT rax gs none
   let statsShape := (List.range rank).map (fun a => if redLead.contains a then 1 else nth x.shape a)
   let view := rep.reshape statsShape
-  .ok ((indices x.shape).map (fun idx =>
+  (indices x.shape).map (fun idx =>
     ⟨view.getD (List.zipWith (fun i d => if d = 1 then 0 else i) idx statsShape) none,
-     featureParam x.shape [rank - 1] scale 1 idx, featureParam x.shape [rank - 1] bias 0 idx⟩))
+     featureParam x.shape [rank - 1] scale 1 idx, featureParam x.shape [rank - 1] bias 0 idx⟩)
+
+def groupNormRed (rank : Nat) (redAxes : Option (List Int)) : List Nat :=
+  match redAxes with
+  | some r => canonAxes rank r
+  | none => canonAxes rank (((List.range (rank - 1)).filter (fun i => decide (1 ≤ i))).map (fun (i : Nat) => (i : Int)) ++ [-1])
+
+def groupNormPieces (x : Tensor Int) (numGroups : Nat) (redAxes : Option (List Int)) (useFast : Bool)
+    (mask scale bias : Option (Tensor Int)) (repeatAx : Option Nat) : Except String (List NormPiece) := do
+  let rank := x.rank
+  if rank = 0 then throw "Rank"
+  let red := groupNormRed rank redAxes
+  if red.getLast? ≠ some (rank - 1) then throw "ReductionAxes"
+  let c := nth x.shape (rank - 1)
+  if numGroups = 0 ∨ c % numGroups ≠ 0 then throw "Groups"
+  let keepLen := ((List.range (rank - 1)).filter (fun a => !(red.dropLast.contains a))).length
+  let rax := repeatAx.getD keepLen
+  if keepLen + 1 ≤ rax then throw "RepeatAxis"
+  .ok (groupNormCore x numGroups red useFast mask scale bias rax)
 
 /-- BatchNorm: feature axis `axis`, reduction over all other axes.  Training returns the pieces computed from
 the batch and the new running statistics `m·ra + (1−m)·batch`; inference uses `ra` and leaves it unchanged. -/
